@@ -63,12 +63,14 @@ def TState.name : TState → String
 def Mesos.name : Mesos → String
   | .staging => "staging" | .running => "running" | .terminal => "terminal"
 
-/-- One roster entry (core/task/task.go). `host = 0` stands for an empty
-    hostname; `agent/offer/executor` say whether the id strings are non-empty. -/
+/-- One roster entry (core/task/task.go). `hostOk/agent/offer/executor` say whether
+    hostname, agentId, offerId, executorId are non-empty (newTaskForMesosOffer fills them
+    from the offer; the task id is never empty). -/
 structure Task where
   id : TaskId
   cls : Cls
   host : Host
+  hostOk : Bool := true
   agent : Bool
   offer : Bool
   executor : Bool
@@ -77,7 +79,7 @@ structure Task where
   state : TState
   deriving DecidableEq, Repr, Inhabited
 
-def Task.idsOk (t : Task) : Bool := decide (t.host ≠ 0) && t.agent && t.offer && t.executor
+def Task.idsOk (t : Task) : Bool := t.hostOk && t.agent && t.offer && t.executor
 
 /-- task.go `isLocked`: all ids non-empty and a parent role. -/
 def Task.isLocked (t : Task) : Bool := t.idsOk && t.parent.isSome
@@ -110,6 +112,7 @@ structure Env where
   dets : List Det
   tasks : List TaskId        -- workflow.GetTasks(): the task of every task role, hooks included
   hooks : List HookRef       -- the DESTROY / after_DESTROY hook tasks among them
+  calls : Nat := 0           -- call roles triggered at before_CONFIGURE whose await never comes
   pending : Nat              -- calls started and not yet awaited (callsPendingAwait)
   tearing : Bool             -- a TeardownEnvironment hangs inside it (transitionMutex held for ever)
   deriving DecidableEq, Repr, Inhabited
@@ -144,6 +147,7 @@ structure Pending where
   id : EnvId
   spec : EnvSpec
   snapshot : List Det        -- alreadyActiveDetectors, read at the very beginning
+  cleaned : Bool             -- past the pre-deployment Cleanup
   inserted : Bool            -- past the detector check, entered in the map
   claims : Option (List (Nat × TaskId))   -- descriptor index ↦ claimed roster task, if the claim step ran on its own
   deriving Repr, Inhabited
@@ -237,6 +241,7 @@ def roleActive (s : State) (x : TaskId) : Bool := s.roster.any (fun t => decide 
 
 inductive TRes where
   | ok | err | hang | notfound
+  | doneErr          -- the teardown completed (environment deleted) and still returned an error
   deriving DecidableEq, Repr, Inhabited
 
 /-- What a teardown did, in order. -/
@@ -246,32 +251,60 @@ inductive TEv where
   | cancel                          -- cancelCallsPendingAwait
   deriving DecidableEq, Repr, Inhabited
 
-/-- environment.Manager.TeardownEnvironment. `late`: the event loop closes and
-    deletes the pending-teardown entry only after the second registration, so
-    the second TasksReleasedEvent finds no entry and the call waits for ever. -/
-def teardown (s : State) (k : EnvId) (force late : Bool) : State × TRes × List TEv :=
+/-- The tasks released first: everything the merged hook map does not name. -/
+def tdPlain (E : Env) : List TaskId := E.tasks.filter (fun x => decide (x ∉ effHooks E.hooks))
+
+/-- The hook tasks triggered at weight `w`: those whose role is still ACTIVE. -/
+def tdRun (s1 : State) (E : Env) (w : Int) : List TaskId := (hooksAt E.hooks w).filter (roleActive s1)
+
+/-- The second ReleaseTasks message: `taskmanMessage` is overwritten in every iteration of
+    the loop over the weights, so it names the last weight's triggered hook tasks only — or
+    still the first message's tasks if there is no DESTROY hook at all. -/
+def tdMsg (s1 : State) (E : Env) : List TaskId :=
+  match (weightsOf E.hooks).getLast? with
+  | none => tdPlain E
+  | some w => tdRun s1 E w
+
+/-- The function-level `err` is overwritten by every TriggerHooks call and returned at the
+    very end: a failing hook at the last weight makes a completed teardown return an error. -/
+def tdHookErr (s1 : State) (E : Env) (hf : List TaskId) : Bool :=
+  match (weightsOf E.hooks).getLast? with
+  | none => false
+  | some w => (tdRun s1 E w).any (fun x => decide (x ∈ hf))
+
+def tdTrace (s1 : State) (E : Env) : List TEv :=
+  [TEv.release (tdPlain E)] ++ (weightsOf E.hooks).map (fun w => TEv.hooks (tdRun s1 E w)) ++ [TEv.cancel]
+
+/-- cancelCallsPendingAwait. -/
+def tdCancel (s1 : State) (k : EnvId) (E : Env) : State :=
+  setEnv { s1 with cancelled := s1.cancelled ++ [(k, E.pending)] } k (fun X => { X with pending := 0 })
+
+/-- TeardownEnvironment after the first release went through: hooks, cancelCallsPendingAwait,
+    second release, DONE, delete. `late`: the event loop closes and deletes the
+    pending-teardown entry only after the second registration, so the second
+    TasksReleasedEvent finds no entry and the call waits for ever. -/
+def tdFinish (s1 : State) (k : EnvId) (E : Env) (late : Bool) (hf : List TaskId) : State × TRes × List TEv :=
+  let s2 := tdCancel s1 k E
+  let tr := tdTrace s1 E
+  if late then (setEnv s2 k (fun X => { X with tearing := true }), .hang, tr) else
+  let msg := tdMsg s1 E
+  let r2 := releaseTasks s2 k msg
+  if r2.2 > 0 then (r2.1, .err, tr ++ [.release msg]) else
+  ({ r2.1 with envs := r2.1.envs.filter (fun X => decide (X.id ≠ k)) },
+   if tdHookErr s1 E hf then .doneErr else .ok, tr ++ [.release msg])
+
+/-- environment.Manager.TeardownEnvironment. `hf`: hook tasks that answer TriggerHook
+    with an error. -/
+def teardown (s : State) (k : EnvId) (force late : Bool) (hf : List TaskId := []) : State × TRes × List TEv :=
   match s.env? k with
   | none => (s, .notfound, [])
   | some E =>
     if E.tearing then (s, .hang, []) else
     if E.state = .DONE then (s, .err, []) else
     if !(decide (E.state = .STANDBY) || decide (E.state = .DEPLOYED)) && !force then (s, .err, []) else
-    let hk := effHooks E.hooks
-    let plain := E.tasks.filter (fun x => decide (x ∉ hk))
-    let r1 := releaseTasks s k plain
-    if r1.2 > 0 then (r1.1, .err, [.release plain]) else
-    let ws := weightsOf E.hooks
-    let runW := fun w => (hooksAt E.hooks w).filter (roleActive r1.1)
-    -- `taskmanMessage` is overwritten in every iteration: only the last weight's hook tasks are released
-    let msg := match ws.getLast? with
-      | none => plain
-      | some w => runW w
-    let s2 := setEnv { r1.1 with cancelled := r1.1.cancelled ++ [(k, E.pending)] } k (fun X => { X with pending := 0 })
-    let tr := [TEv.release plain] ++ ws.map (fun w => TEv.hooks (runW w)) ++ [TEv.cancel]
-    if late then (setEnv s2 k (fun X => { X with tearing := true }), .hang, tr) else
-    let r2 := releaseTasks s2 k msg
-    if r2.2 > 0 then (r2.1, .err, tr ++ [.release msg]) else
-    ({ r2.1 with envs := r2.1.envs.filter (fun X => decide (X.id ≠ k)) }, .ok, tr ++ [.release msg])
+    let r1 := releaseTasks s k (tdPlain E)
+    if r1.2 > 0 then (r1.1, .err, [.release (tdPlain E)]) else
+    tdFinish r1.1 k E late hf
 
 /-! ### transitions of a live environment -/
 
@@ -314,18 +347,33 @@ inductive Res where
   | errLoad | errDetector | errDeploy | errConfigure | err | notfound | hang | crash | noop
   deriving DecidableEq, Repr, Inhabited
 
+/-- before_CONFIGURE: the calls of the workflow are started (again). -/
+def restartCalls (s : State) (k : EnvId) (E : Env) (ev : CEv) : State :=
+  if ev = .CONFIGURE then
+    setEnv { s with started := s.started ++ [(k, E.calls)] } k (fun X => { X with pending := X.pending + E.calls })
+  else s
+
 /-- server.go ControlEnvironment: a failed (or illegal) transition is followed
-    by GO_ERROR, forced if need be; the reply carries the new state and — the
-    error being overwritten — no error. -/
-def control (s : State) (k : EnvId) (ev : CEv) (fails : List (TaskId × Bool)) : State × Res :=
+    by GO_ERROR; the reply carries the new state and — the error being
+    overwritten by GO_ERROR's result — no error, unless GO_ERROR itself is
+    illegal (state ERROR): then the state is forced and that error is returned.
+    `pre`: the transition is cancelled before its body (START_ACTIVITY lost the
+    compare-and-swap on the run number to a concurrent START). A legal CONFIGURE
+    starts the before_CONFIGURE calls again. -/
+def control (s : State) (k : EnvId) (ev : CEv) (fails : List (TaskId × Bool)) (pre : Bool := false) : State × Res :=
+  -- DEPLOY / CONFIGURE of a creation in progress hold the transition mutex: the request is not served yet
+  if (s.creating.any (fun p => decide (p.id = k))) then (s, .noop) else
   match s.env? k with
   | none => (s, .notfound)
   | some E =>
     if E.tearing then (s, .hang) else
     match envDst? ev E.state with
-    | none => (setEnv s k (fun X => { X with state := .ERROR }), .okState .ERROR)
+    | none =>
+      if E.state = .ERROR then (s, .err)
+      else (setEnv s k (fun X => { X with state := .ERROR }), .okState .ERROR)
     | some d =>
-      let r := applyTrans s E ev fails
+      if pre then (setEnv s k (fun X => { X with state := .ERROR }), .okState .ERROR) else
+      let r := applyTrans (restartCalls s k E ev) E ev fails
       if r.2 then (setEnv r.1 k (fun X => { X with state := d }), .okState d)
       else (setEnv r.1 k (fun X => { X with state := .ERROR }), .okState .ERROR)
 
@@ -336,35 +384,38 @@ structure DOracle where
   resetFails : List (TaskId × Bool) := []
   late1 : Bool := false       -- the rendezvous race in the first teardown
   late2 : Bool := false       -- … in the forced retry
+  hookFails : List TaskId := []   -- hook tasks answering TriggerHook with an error
   deriving Repr, Inhabited
+
+/-- The tail of doTeardownAndCleanup: any error of the (last) teardown is answered as an
+    error and the task cleanup is skipped. -/
+def tcFin (keep : Bool) (ids : List TaskId) (s' : State) (res : TRes) (tr : List TEv) : State × Res × List TEv :=
+  match res with
+  | .ok => if keep then (s', Res.ok, tr) else (cleanupTasks s' ids, Res.ok, tr)
+  | .hang => (s', Res.hang, tr)
+  | .notfound => (s', Res.notfound, tr)
+  | _ => (s', Res.err, tr)
 
 /-- server.go doTeardownAndCleanup (with its retry "with force"). `ids` are the
     environment's tasks (env.Workflow().GetTasks(), read from the object the
     caller holds). -/
-def teardownAndCleanup (s : State) (k : EnvId) (ids : List TaskId) (force keep late1 late2 : Bool) :
+def teardownAndCleanup (s : State) (k : EnvId) (ids : List TaskId) (force keep : Bool) (o : DOracle) :
     State × Res × List TEv :=
-  let r := teardown s k force late1
-  let fin := fun (s' : State) (res : TRes) (tr : List TEv) =>
-    match res with
-    | .ok => if keep then (s', Res.ok, tr) else (cleanupTasks s' ids, Res.ok, tr)
-    | .hang => (s', Res.hang, tr)
-    | _ => (s', Res.err, tr)
-  match r.2.1 with
-  | .ok => fin r.1 .ok r.2.2
-  | .hang => fin r.1 .hang r.2.2
-  | _ =>
-    if force then (r.1, .err, r.2.2)
-    else
-      let r' := teardown r.1 k true late2
-      fin r'.1 r'.2.1 (r.2.2 ++ r'.2.2)
+  let r := teardown s k force o.late1 o.hookFails
+  if r.2.1 = .ok ∨ r.2.1 = .hang ∨ force then tcFin keep ids r.1 r.2.1 r.2.2
+  else
+    let r' := teardown r.1 k true o.late2 o.hookFails
+    tcFin keep ids r'.1 r'.2.1 (r.2.2 ++ r'.2.2)
 
 /-- server.go DestroyEnvironment. -/
 def destroy (s : State) (k : EnvId) (force allow keep : Bool) (o : DOracle) : State × Res × List TEv :=
+  -- DEPLOY / CONFIGURE of a creation in progress hold the transition mutex: the request is not served yet
+  if (s.creating.any (fun p => decide (p.id = k))) then (s, .noop, []) else
   match s.env? k with
   | none => (s, .notfound, [])
   | some E =>
     if E.tearing then (s, .hang, []) else
-    if force then teardownAndCleanup s k E.tasks true keep o.late1 o.late2 else
+    if force then teardownAndCleanup s k E.tasks true keep o else
     -- STOP first when allowed
     let a : State × EState × Bool :=
       if allow && decide (E.state = .RUNNING) then
@@ -372,15 +423,15 @@ def destroy (s : State) (k : EnvId) (force allow keep : Bool) (o : DOracle) : St
         if r.2 then (setEnv r.1 k (fun X => { X with state := .CONFIGURED }), .CONFIGURED, true)
         else (r.1, E.state, false)
       else (s, E.state, true)
-    if !a.2.2 then teardownAndCleanup a.1 k E.tasks true false o.late1 o.late2 else
+    if !a.2.2 then teardownAndCleanup a.1 k E.tasks true false o else
     if !(decide (a.2.1 = .CONFIGURED) || decide (a.2.1 = .DEPLOYED) || decide (a.2.1 = .STANDBY)) then
-      teardownAndCleanup a.1 k E.tasks true false o.late1 o.late2 else
+      teardownAndCleanup a.1 k E.tasks true false o else
     if a.2.1 = .CONFIGURED then
       let E' := { E with state := .CONFIGURED }
       let r := applyTrans a.1 E' .RESET o.resetFails
-      if r.2 then teardownAndCleanup (setEnv r.1 k (fun X => { X with state := .DEPLOYED })) k E.tasks false keep o.late1 o.late2
-      else teardownAndCleanup r.1 k E.tasks true false o.late1 o.late2
-    else teardownAndCleanup a.1 k E.tasks false keep o.late1 o.late2
+      if r.2 then teardownAndCleanup (setEnv r.1 k (fun X => { X with state := .DEPLOYED })) k E.tasks false keep o
+      else teardownAndCleanup r.1 k E.tasks true false o
+    else teardownAndCleanup a.1 k E.tasks false keep o
 
 /-! ### creation -/
 
@@ -390,21 +441,27 @@ def descriptors (spec : EnvSpec) : List (Nat × RoleSpec) :=
 
 def callCount (spec : EnvSpec) : Nat := (spec.roles.filter (fun r => decide (r.kind = .call))).length
 
-/-- CreateEnvironment up to and including the pre-deployment Cleanup: the
-    active detectors are read first; a missing workflow file is noticed before
-    the Cleanup. Environment ids are fresh (an id seen before is ignored). -/
+/-- The very beginning of CreateEnvironment: the active detectors are read; a
+    missing workflow file is noticed right away. Environment ids are fresh (an id
+    seen before is ignored). -/
 def createBegin (s : State) (k : EnvId) (spec : EnvSpec) : State × Res :=
   if k ∈ s.used then (s, .noop) else
   let s0 := { s with used := k :: s.used }
   if spec.bad = .nowf then (s0, .errLoad) else
-  let s1 := cleanup s0
-  ({ s1 with creating := { id := k, spec := spec, snapshot := s.activeDets, inserted := false, claims := none } :: s1.creating }, .noop)
+  ({ s0 with creating := { id := k, spec := spec, snapshot := s.activeDets, cleaned := false, inserted := false, claims := none } :: s0.creating }, .noop)
+
+/-- The pre-deployment Cleanup (every unlocked task is killed). -/
+def createCleanup (s : State) (k : EnvId) : State :=
+  if s.creating.any (fun p => decide (p.id = k) && !p.cleaned) then
+    let s1 := cleanup s
+    { s1 with creating := s1.creating.map (fun q => if q.id = k then { q with cleaned := true } else q) }
+  else s
 
 def dropPending (s : State) (k : EnvId) : State :=
   { s with creating := s.creating.filter (fun p => decide (p.id ≠ k)) }
 
 def State.pending? (s : State) (k : EnvId) (inserted : Bool) : Option Pending :=
-  s.creating.find? (fun p => decide (p.id = k) && (p.inserted == inserted))
+  s.creating.find? (fun p => decide (p.id = k) && p.cleaned && (p.inserted == inserted))
 
 /-- Workflow load, detector check against the snapshot taken at the beginning,
     insertion into the map. -/
@@ -416,7 +473,7 @@ def createInsert (s : State) (k : EnvId) : State × Res :=
     if p.spec.dets.any (fun d => decide (d ∈ p.snapshot)) then (dropPending s k, .errDetector) else
     ({ s with creating := s.creating.map (fun q => if q.id = k then { q with inserted := true } else q),
               envs := s.envs ++ [{ id := k, state := .STANDBY, dets := p.spec.dets, tasks := [], hooks := [],
-                                   pending := 0, tearing := false }] }, .noop)
+                                   calls := callCount p.spec, pending := 0, tearing := false }] }, .noop)
 
 /-- acquireTasks' reuse loop: for every descriptor the first claimable roster
     task of the same class on the wanted host that no earlier descriptor took. -/
@@ -430,6 +487,13 @@ def claimLoop (roster : List Task) : List (Nat × RoleSpec) → List (Nat × Tas
 
 def computeClaims (s : State) (spec : EnvSpec) : List (Nat × TaskId) :=
   if s.reuse then claimLoop s.roster (descriptors spec) [] else []
+
+/-- The claims a settling creation works with: those of its free-standing claim step, if
+    there was one, else computed now. -/
+def claimsOf (s : State) (p : Pending) : List (Nat × TaskId) :=
+  match p.claims with
+  | some c => c
+  | none => computeClaims s p.spec
 
 /-- The claim part of acquireTasks run on its own (it holds no lock). -/
 def createClaim (s : State) (k : EnvId) : State :=
@@ -447,6 +511,7 @@ structure SettleOracle where
   launches : List (Nat × LaunchOut) := []    -- per role index; default: running and seen
   cfgFails : List (Nat × Bool) := []         -- role index ↦ fails CONFIGURE (true: ends in ERROR)
   late : Bool := false                       -- rendezvous race in the failure path's teardown
+  hookFails : List TaskId := []              -- hook tasks answering TriggerHook with an error (failure path's teardown)
   deriving Repr, Inhabited
 
 def launchOf (o : SettleOracle) (i : Nat) : LaunchOut := (o.launches.lookup i).getD {}
@@ -458,12 +523,57 @@ def assignNew : List (Nat × RoleSpec) → TaskId → List (Nat × RoleSpec × T
 
 /-- The failure tail of CreateEnvironment: GO_ERROR, forced teardown (its
     result is dropped), KillTasks on the environment's tasks. -/
-def createFail (s : State) (k : EnvId) (ids : List TaskId) (late : Bool) (res : Res) : State × Res :=
+def createFail (s : State) (k : EnvId) (ids : List TaskId) (late : Bool) (res : Res) (hf : List TaskId := []) : State × Res :=
   let s1 := setEnv s k (fun X => { X with state := .ERROR })
-  let r := teardown s1 k true late
+  let r := teardown s1 k true late hf
   match r.2.1 with
   | .hang => (r.1, .hang)
   | _ => (killTasks r.1 ids, res)
+
+/-- What acquireTasks leaves behind. -/
+structure Acq where
+  s : State
+  ids : List TaskId              -- the environment's tasks (claimed or launched), in role order
+  deployOk : Bool                -- every launched task came up
+  idOf : Nat → Option TaskId     -- role index ↦ task
+
+/-- acquireTasks after the claim: the descriptors nobody was claimed for are launched (ids
+    are consecutive), launched and claimed tasks get the parent role, the roles get their task. -/
+def acquire (s : State) (k : EnvId) (spec : EnvSpec) (claims : List (Nat × TaskId)) (o : SettleOracle) : Acq :=
+  let descs := descriptors spec
+  let toRun := descs.filter (fun d => decide (d.1 ∉ claims.map (·.1)))
+  let fresh := assignNew toRun s.nextTask
+  let deployOk := fresh.all (fun x => decide ((launchOf o x.1).mesos = .running))
+  let newTasks : List Task := fresh.map (fun x =>
+    { id := x.2.2, cls := x.2.1.cls, host := x.2.1.host, hostOk := true, agent := true, offer := true, executor := true,
+      parent := some k,
+      active := if deployOk then true else ((launchOf o x.1).active && decide ((launchOf o x.1).mesos = .running)),
+      state := if (launchOf o x.1).mesos = .terminal then .ERROR else .STANDBY })
+  let newM : List MTask := fresh.map (fun x =>
+    { id := x.2.2, label := k, role := x.1, mesos := (launchOf o x.1).mesos, killed := false })
+  let cids := claims.map (·.2)
+  let idOf := fun (i : Nat) => match claims.lookup i with
+    | some t => some t
+    | none => (fresh.find? (fun x => decide (x.1 = i))).map (·.2.2)
+  let ids := descs.filterMap (fun d => idOf d.1)
+  let hooks := descs.filterMap (fun d =>
+    if d.2.kind = .hook then (idOf d.1).map (fun t => ({ task := t, weight := d.2.weight, after := d.2.after } : HookRef)) else none)
+  let s1 := { s with roster := s.roster.map (fun t => if t.id ∈ cids then { t with parent := some k } else t) ++ newTasks,
+                     master := s.master ++ newM,
+                     nextTask := s.nextTask + fresh.length }
+  { s := setEnv s1 k (fun X => { X with tasks := ids, hooks := hooks }), ids := ids, deployOk := deployOk, idOf := idOf }
+
+/-- The CONFIGURE transition that ends a creation: the before_CONFIGURE calls are started,
+    the tasks are commanded. -/
+def createConfigure (s : State) (k : EnvId) (spec : EnvSpec) (a : Acq) (o : SettleOracle) : State × Res :=
+  match s.env? k with
+  | none => (s, .noop)
+  | some E =>
+    let fails := o.cfgFails.filterMap (fun f => (a.idOf f.1).map (fun t => (t, f.2)))
+    let r := applyTrans s { E with state := .DEPLOYED } .CONFIGURE fails
+    let s3 := setEnv { r.1 with started := r.1.started ++ [(k, callCount spec)] } k (fun X => { X with pending := callCount spec })
+    if r.2 then (setEnv s3 k (fun X => { X with state := .CONFIGURED }), .okState .CONFIGURED)
+    else createFail s3 k a.ids o.late .errConfigure o.hookFails
 
 /-- DEPLOY (acquireTasks + waiting for the workflow to become ACTIVE), CONFIGURE,
     and the failure tail. -/
@@ -477,42 +587,14 @@ def createSettle (s : State) (k : EnvId) (o : SettleOracle) : State × Res :=
       -- no offer for a wanted host: nothing is launched, the deployment is given up
       createFail s k [] o.late .errDeploy
     else
-    let claims := match p.claims with
-      | some c => c
-      | none => computeClaims s p.spec
-    let toRun := descs.filter (fun d => decide (d.1 ∉ claims.map (·.1)))
-    if s.reuse && toRun.isEmpty then
+    let claims := claimsOf s p
+    if s.reuse && (descs.filter (fun d => decide (d.1 ∉ claims.map (·.1)))).isEmpty then
       -- deployMu.Lock() is skipped but deployMu.Unlock() is not: fatal error, the process dies
       ({ s with crashed := true }, .crash)
     else
-    let fresh := assignNew toRun s.nextTask
-    let deployOk := fresh.all (fun x => decide ((launchOf o x.1).mesos = .running))
-    let newTasks : List Task := fresh.map (fun x =>
-      let lo := launchOf o x.1
-      { id := x.2.2, cls := x.2.1.cls, host := x.2.1.host, agent := true, offer := true, executor := true,
-        parent := some k,
-        active := if deployOk then true else (lo.active && decide (lo.mesos = .running)),
-        state := if lo.mesos = .terminal then .ERROR else .STANDBY })
-    let newM : List MTask := fresh.map (fun x =>
-      { id := x.2.2, label := k, role := x.1, mesos := (launchOf o x.1).mesos, killed := false })
-    let cids := claims.map (·.2)
-    let idOf := fun (i : Nat) => match claims.lookup i with
-      | some t => some t
-      | none => (fresh.find? (fun x => decide (x.1 = i))).map (·.2.2)
-    let ids := descs.filterMap (fun d => idOf d.1)
-    let hooks := descs.filterMap (fun d =>
-      if d.2.kind = .hook then (idOf d.1).map (fun t => ({ task := t, weight := d.2.weight, after := d.2.after } : HookRef)) else none)
-    let s1 := { s with roster := s.roster.map (fun t => if t.id ∈ cids then { t with parent := some k } else t) ++ newTasks,
-                       master := s.master ++ newM,
-                       nextTask := s.nextTask + fresh.length }
-    let s2 := setEnv s1 k (fun X => { X with tasks := ids, hooks := hooks })
-    if !deployOk then createFail s2 k ids o.late .errDeploy else
-    let E : Env := { id := k, state := .DEPLOYED, dets := p.spec.dets, tasks := ids, hooks := hooks, pending := 0, tearing := false }
-    let fails := o.cfgFails.filterMap (fun f => (idOf f.1).map (fun t => (t, f.2)))
-    let r := applyTrans s2 E .CONFIGURE fails
-    let s3 := setEnv { r.1 with started := r.1.started ++ [(k, callCount p.spec)] } k (fun X => { X with pending := callCount p.spec })
-    if r.2 then (setEnv s3 k (fun X => { X with state := .CONFIGURED }), .okState .CONFIGURED)
-    else createFail s3 k ids o.late .errConfigure
+    let a := acquire s k p.spec claims o
+    if !a.deployOk then createFail a.s k a.ids o.late .errDeploy o.hookFails
+    else createConfigure a.s k p.spec a o
 
 /-- The simulated tasks of environment `k` held at launch finish starting. -/
 def mesosStart (s : State) (k : EnvId) : State :=
@@ -524,25 +606,104 @@ def mesosStart (s : State) (k : EnvId) : State :=
 
 inductive Step where
   | createBegin (k : EnvId) (spec : EnvSpec)
+  | createCleanup (k : EnvId)
   | createInsert (k : EnvId)
   | createClaim (k : EnvId)
   | createSettle (k : EnvId) (o : SettleOracle)
-  | control (k : EnvId) (ev : CEv) (fails : List (TaskId × Bool))
+  | control (k : EnvId) (ev : CEv) (fails : List (TaskId × Bool)) (pre : Bool)
   | destroy (k : EnvId) (force allow keep : Bool) (o : DOracle)
   | cleanup
   | killIds (ids : List TaskId)
   | mesosStart (k : EnvId)
   deriving Repr, Inhabited
 
+/-! ### the pendingTeardownsCh rendezvous as a schedule
+
+  TeardownEnvironment (goroutine T) and the environment manager's event loop
+  (goroutine L) meet twice per teardown:
+
+    T  register : envs.mu.Lock(); pendingTeardownsCh[id] = make(chan); Unlock()
+    T  send     : taskman.MessageChannel <- ReleaseTasks  (… releaseTasks … internalEventCh <- TasksReleasedEvent)
+    L  recv     : case *TasksReleasedEvent: RLock; thisEnvCh, ok := pendingTeardownsCh[id]; RUnlock
+    L  handoff  : thisEnvCh <- typedEvent            (T's `<-pendingCh` returns)
+    L  delete   : Lock; close(thisEnvCh); delete(pendingTeardownsCh, id); Unlock
+
+  `delete` removes whatever is registered under the id at that moment. Between
+  `handoff` and `delete` goroutine T is free to run its hooks and `register` again:
+  then the delete takes the FRESH entry away, the second TasksReleasedEvent finds
+  none (it is dropped) and T waits for ever. `tdFinish … late := true` is this schedule. -/
+
+namespace Rdv
+
+inductive Step where
+  | register | send | recv | handoff | delete
+  deriving DecidableEq, Repr, Inhabited
+
+inductive LoopPc where
+  | idle | holding (c : Nat) | deleting
+  deriving DecidableEq, Repr, Inhabited
+
+structure St where
+  entry : Option Nat := none   -- pendingTeardownsCh[id]
+  nextCh : Nat := 1
+  queue : Nat := 0             -- TasksReleasedEvents in incomingEventCh
+  loop : LoopPc := .idle
+  td : Nat := 0                -- 0 register · 1 send · 2 await · 3 register · 4 send · 5 await · 6 returned
+  waitCh : Nat := 0            -- the channel T waits on
+  deriving DecidableEq, Repr, Inhabited
+
+def done (s : St) : Bool := decide (s.td = 6)
+
+/-- One step of the given kind, if it is enabled. `atomic`: the repaired event loop, which
+    takes the entry out of the map in the same critical section in which it looked it up
+    (so the hand-off and the deletion cannot be separated by a registration). -/
+def step (atomic : Bool) (s : St) : Step → Option St
+  | .register =>
+    if s.td = 0 ∨ s.td = 3 then some { s with entry := some s.nextCh, waitCh := s.nextCh, nextCh := s.nextCh + 1, td := s.td + 1 } else none
+  | .send =>
+    if s.td = 1 ∨ s.td = 4 then some { s with queue := s.queue + 1, td := s.td + 1 } else none
+  | .recv =>
+    if s.loop = .idle ∧ s.queue > 0 then
+      match s.entry with
+      | some c => some { s with queue := s.queue - 1, loop := .holding c, entry := if atomic then none else s.entry }
+      | none => some { s with queue := s.queue - 1 }      -- no pending teardown: the event is dropped
+    else none
+  | .handoff =>
+    match s.loop with
+    | .holding c =>
+      if (s.td = 2 ∨ s.td = 5) ∧ s.waitCh = c then some { s with td := s.td + 1, loop := if atomic then .idle else .deleting } else none
+    | _ => none
+  | .delete =>
+    if s.loop = .deleting then some { s with entry := none, loop := .idle } else none
+
+def allSteps : List Step := [.register, .send, .recv, .handoff, .delete]
+
+def run (atomic : Bool) (s : St) : List Step → Option St
+  | [] => some s
+  | st :: rest => (step atomic s st).bind (fun s' => run atomic s' rest)
+
+/-- Nothing can move any more. -/
+def stuck (atomic : Bool) (s : St) : Bool := allSteps.all (fun st => (step atomic s st).isNone)
+
+/-- Every state reachable within `fuel` steps (every step advances a counter, 12 suffice). -/
+def reach (atomic : Bool) : Nat → List St → List St
+  | 0, acc => acc
+  | fuel + 1, acc =>
+    let next := acc.flatMap (fun s => allSteps.filterMap (step atomic s))
+    reach atomic fuel (next.foldl (fun a s => if s ∈ a then a else a ++ [s]) acc)
+
+end Rdv
+
 /-- One step. A dead core does nothing any more. -/
 def step (s : State) (st : Step) : State × Res :=
   if s.crashed then (s, .crash) else
   match st with
   | .createBegin k spec => createBegin s k spec
+  | .createCleanup k => (createCleanup s k, .noop)
   | .createInsert k => createInsert s k
   | .createClaim k => (createClaim s k, .noop)
   | .createSettle k o => createSettle s k o
-  | .control k ev fails => control s k ev fails
+  | .control k ev fails pre => control s k ev fails pre
   | .destroy k f a kp o => let r := destroy s k f a kp o; (r.1, r.2.1)
   | .cleanup => (cleanup s, .ok)
   | .killIds ids => (cleanupTasks s ids, .ok)
@@ -556,7 +717,7 @@ def run (s : State) : List Step → State
 def create (s : State) (k : EnvId) (spec : EnvSpec) (o : SettleOracle) : State × Res :=
   let a := createBegin s k spec
   if a.2 ≠ .noop ∨ k ∈ s.used then a else
-  let b := createInsert a.1 k
+  let b := createInsert (createCleanup a.1 k) k
   if b.2 ≠ .noop then b else
   createSettle b.1 k o
 
